@@ -4,7 +4,7 @@ from props.common import mk
 
 ASSUMPTIONS = [
     "work = executed basic blocks inside github.com/coregx/* during the harness run of one call, counted by the symbolic executor on every path; W(p,api,L) = maximum over ALL haystacks of length L over the item's alphabet (exact within the bound, the arg-max model is the adversarial input)",
-    "claims: (i) W(2L)-W(0) <= 2.5*(W(L)-W(0)) + 400 for the largest L in the bound; (ii) W(L) <= K*(states+1)*(L+1), K = 4 x the largest such ratio observed for the reference PikeVM on the same corpus and bound; nothing is claimed about asymptotics beyond the bound nor about compile time",
+    "claims: (i) slope of W over [L,2L] <= 4 x slope over [0,L] + (400 + 2 x reference PikeVM work at 2L)/L for ALL haystacks over 3 class representatives (first-use costs dominate at these lengths: only super-polynomial growth is asserted there), slope over [L,2L] <= 1.5 x slope over [0,L] + 400/L for one-symbol runs; for long runs (N = 128..1024 copies of one symbol + one symbolic byte) slope over [2N,4N] <= 1.25 x slope over [N,2N] + 400/2N; (ii) W(L) <= K*(states+1)*(L+1), K = 4 x the largest such ratio observed for the reference PikeVM on the same corpus and bound; nothing is claimed about asymptotics beyond the bound nor about compile time",
 ]
 
 # pattern -> alphabet of class representatives
@@ -13,8 +13,15 @@ F05 = [
     (r"foo|bar", "fob"), (r"\bx", "x -"), (r"ab$", "ab\n"), (r".*co.*", "co\n"), (r"(\d+)-(\d+)", "1-a"),
     (r"([a-z])+[0-9]", "a1-"), (r"[a-z]+[a-z]+[a-z]+[0-9]", "a1-"), (r"(a*)*b", "ab-"), (r"(a|aa)+$", "ab-"), (r"(x+x+)+y", "xy-"),
     (r"[a-z]+\.tx", "a.t"), (r"\w+\s+\w+", "a -"), (r"(?m)^/.*\.js", "/.\n"),
+    (r"[A-Z][a-z]+(aaa|bbb)", "aAb"), (r"[A-Z][a-z.]+\.com", "A.c"), (r"[a-z]+(ing|ed)", "ing"),
 ]
-QUICK = F05[:12]
+QUICK = F05[:12] + F05[18:19]
+# "runs": one-symbol alphabets make the haystack a single path per length, so much longer inputs are affordable; they are
+# the adversaries of the anti-quadratic guards (self-overlapping literal candidates: aaa in a^n)
+LONG_NS = {"quick": [128, 256, 512], "thorough": [256, 512, 1024]}
+# patterns whose short runs already show the (known) super-linear growth: the long runs would only exhaust the step limit
+NO_LONG = {r"([a-z])+[0-9]", r"[a-z]+[a-z]+[a-z]+[0-9]", r"(a*)*b", r"(a|aa)+$", r"(x+x+)+y"}
+RUN_LS = {"quick": [0, 16, 32], "thorough": [0, 32, 64]}
 
 
 def items(tier):
@@ -25,6 +32,20 @@ def items(tier):
         for api in (["FindIndex", "pike"] if tier == "quick" else ["Match", "FindIndex", "FindSubmatchIndex", "pike"]):
             for L in Ls:
                 out.append(mk("C05", p, api, L, "hex:" + alpha.encode().hex(), closure=0, sample=40))
+    for p, alpha in fam:
+        for api in (["FindIndex"] if tier == "quick" else ["Match", "FindIndex", "FindSubmatchIndex"]):
+            for ch in alpha:
+                for L in RUN_LS[tier]:
+                    out.append(mk("C05", p, api, L, "hex:" + ch.encode().hex(), closure=0, sample=2))
+    # long runs: N concrete copies of one symbol followed by ONE symbolic byte over the pattern's alphabet. The quadratic term of
+    # a guard failure has a small coefficient (a cached DFA step per byte) next to the per-candidate overhead, so it only
+    # dominates the block count from a few hundred bytes on. Items that exhaust the step limit are reported inconclusive.
+    for p, alpha in fam:
+        if p in NO_LONG:
+            continue
+        for ch in alpha:
+            for n in LONG_NS[tier]:
+                out.append(mk("C05", p, "FindIndex", 1, "hex:" + alpha.encode().hex(), n=n, extra=ch, closure=0, sample=2, step_limit=60000000))
     return out
 
 
@@ -35,7 +56,31 @@ def post_check(results, tier):
         if r.get("error") or not r.get("complete"):
             continue
         it = r["item"]
-        W[(it["Pattern"], it["API"], it["L"])] = (r.get("max_work", 0), r.get("max_work_model"), r["id"], it)
+        run = len(it["Alpha"]) == 6  # hex: + one byte
+        if it.get("N"):
+            W[(it["Pattern"] + "|long:" + it["Extra"].encode().hex(), it["API"], it["N"])] = (r.get("max_work", 0), r.get("max_work_model"), r["id"], it)
+            continue
+        W[(it["Pattern"] + ("|run:" + it["Alpha"][4:] if run else ""), it["API"], it["L"])] = (r.get("max_work", 0), r.get("max_work_model"), r["id"], it)
+    vios = []
+    info = {"growth": [], "K_reference": None}
+    for grp in ("", "|run:", "|long:"):
+        if grp:
+            Wg = {k: v for k, v in W.items() if grp in k[0]}
+        else:
+            Wg = {k: v for k, v in W.items() if "|run:" not in k[0] and "|long:" not in k[0]}
+        # short exhaustive lengths: first-use costs (lazy DFA states, one fall-back to the linear simulator) dominate, so only
+        # growth beyond cubic-in-3-points (slope ratio > 4, e.g. doubling per byte) is asserted there; polynomial growth is
+        # the business of the runs, where those costs are amortised (quadratic = ratio 3 over 0/L/2L, 2 over N/2N/4N)
+        v, i = _growth(Wg, {"": 4.0, "|run:": 1.5, "|long:": 1.25}[grp], W if not grp else None)
+        vios += v
+        info["growth"] += i.get("growth", [])
+        if not grp:
+            info["K_reference_blocks_per_byte"] = i.get("K_reference_blocks_per_byte")
+    return vios, info
+
+
+def _growth(W, ratio, ref=None):
+    """slope over [L1,L2] against slope over [L0,L1]: linear work keeps it, c*n^2 doubles it (triples it for 0,L,2L)."""
     Ls = sorted({k[2] for k in W})
     if len(Ls) < 3:
         return [], {}
@@ -56,7 +101,12 @@ def post_check(results, tier):
         w1, w0 = W[(p, api, L1)][0], W[(p, api, L0)][0]
         g = {"pattern": p, "api": api, "W": {str(L0): w0, str(L1): w1, str(L2): w2}, "argmax_model": m2}
         info["growth"].append(g)
-        if (w2 - w0) > 2.5 * (w1 - w0) + 400:
+        # slack: a constant, plus (short exhaustive lengths only) twice the reference simulation of the same pattern at
+        # L2 — a switch to the linear fall-back engine between two lengths is a step, not growth
+        slack = 400.0
+        if ref is not None and (p, "pike", L2) in ref:
+            slack += 2.0 * ref[(p, "pike", L2)][0]
+        if (w2 - w1) / float(L2 - L1) > ratio * (w1 - w0) / float(L1 - L0) + slack / (L2 - L1):
             vios.append({"id": rid, "item": {k: it[k] for k in it if k[0].isupper()}, "model": m2 or {}, "msg": "C05 worst-case work grows faster than linearly: W(%d)=%d W(%d)=%d W(%d)=%d" % (L0, w0, L1, w1, L2, w2), "snaps": g["W"], "source": "work-growth", "pc": "true"})
         elif kref > 0 and w2 > 4 * kref * (L2 + 1) * 8:
             vios.append({"id": rid, "item": {k: it[k] for k in it if k[0].isupper()}, "model": m2 or {}, "msg": "C05 worst-case work exceeds 32x the reference simulation: W(%d)=%d, reference per byte %.0f" % (L2, w2, kref), "snaps": g["W"], "source": "work-bound", "pc": "true"})
@@ -64,4 +114,5 @@ def post_check(results, tier):
 
 
 def evidence_extra(tier):
-    return {"bounds": {"family": [p for p, _ in (QUICK if tier == "quick" else F05)], "lengths": [0, 3, 6] if tier == "quick" else [0, 4, 8], "alphabet": "3 class representatives per pattern"}}
+    return {"bounds": {"family": [p for p, _ in (QUICK if tier == "quick" else F05)], "lengths": [0, 3, 6] if tier == "quick" else [0, 4, 8], "alphabet": "3 class representatives per pattern",
+                       "runs": "one-symbol haystacks of length %s per alphabet symbol" % RUN_LS[tier], "long_runs": "%s copies of one symbol followed by one symbolic byte (FindIndex; patterns %s excluded: their short runs already show the known super-linear growth)" % (LONG_NS[tier], sorted(NO_LONG))}}
